@@ -42,9 +42,16 @@ func genC16(tier string, seed uint64, emit func(string)) {
 			store = "example"
 		}
 		line := fmt.Sprintf("lin %s %d %d %d %d %s", store, clients, ops, 1+r.Intn(3), r.U64()%100000000, kindSets[i%len(kindSets)])
-		if i%3 == 2 {
+		switch i % 6 {
+		case 2:
 			// all clients but the first connect only when they issue their first command
 			line += " late"
+		case 3:
+			// every client first sends requests that are answered with an error and change nothing (missing argument,
+			// not a number, unknown command): an error reply leaves the connection as it was
+			line += " errfirst"
+		case 5:
+			line += " late,errfirst"
 		}
 		emit(line)
 	}
@@ -235,7 +242,8 @@ func runC16(toks []string) Result {
 	var wg, swg sync.WaitGroup
 	start := make(chan struct{})
 	hung := atomic.Bool{}
-	late := len(toks) > 7 && toks[7] == "late"
+	late := len(toks) > 7 && strings.Contains(toks[7], "late")
+	errFirst := len(toks) > 7 && strings.Contains(toks[7], "errfirst")
 	for c := 0; c < clients; c++ {
 		connect := func() net.Conn {
 			cl, sv := net.Pipe()
@@ -263,6 +271,16 @@ func runC16(toks []string) Result {
 			}
 			defer conn.Close()
 			br := bufio.NewReader(conn)
+			if errFirst {
+				for _, bad := range [][]string{{"GET"}, {"INCRBY", "n", "not-a-number"}, {"NOSUCHCOMMAND", "x"}}[:1+r.Intn(3)] {
+					conn.SetDeadline(time.Now().Add(10 * time.Second))
+					conn.Write(reqS(bad...))
+					if reply, err := readReply(br); err != nil || len(reply) == 0 || reply[0] != '-' {
+						hung.Store(true)
+						return
+					}
+				}
+			}
 			for i := 0; i < ops; i++ {
 				argv := genLinOp(r, kinds, keys, c, i)
 				req := reqS(argv...)
